@@ -235,7 +235,9 @@ def handleLine (st : State) (line : String) : State × String :=
          else if bad && reordered then ["C20:forced-attr-order"]
          -- the two passes agree once every `!important` is deleted: each pass drops the priority the
          -- declaration parser recognised, and a matcher that accepts `!important` as text let a further one through
-         else if bad && dropImportant o1 == dropImportant o2 then ["C20:important-dropped"] else []))
+         -- (only when the model reproduces both passes: the finding is a behaviour of the code as it is)
+         else if bad && m1 == o1 && m2 == o2 && dropImportant o1 == dropImportant o2 then ["C20:important-dropped"]
+         else []))
     | _, _, _, _ => (st, "bad-idem")
   | ["entry", pid, inp, oS, oB, oR, oW, oW2, okf, _mode] =>
     match getPolicy st pid, unhexField inp, unhexField oS, unhexField oB, unhexField oR, unhexField oW, unhexField oW2 with
